@@ -545,3 +545,34 @@ def pairing_rule(repo: Repo, rep, prop: str, rule: str):
     probs, n = pairing_problems(repo, tuple(MEMO_SCOPE[prop]))
     rep.check(not probs, rule, '%s:registries' % '+'.join(MEMO_SCOPE[prop]), '', '%d function(s) with a register / unregister pair, balanced '
               'on every path' % n, '; '.join(probs[:3]))
+
+
+# --------------------------------------------------------------------------- PS3.8 9.3.2: the protocol-version field is a bit mask
+
+def protocol_version_problems(repo: Repo) -> Tuple[List[str], int]:
+    """PS3.8 9.3.2 / 9.3.3: "Protocol-version: ... uses one bit to identify each version of the DICOM UL protocol ... the receiver
+    of this PDU implementing only this version shall only test that bit 0 is set."  Every test the package makes on the
+    protocol-version of a received A-ASSOCIATE PDU therefore goes through ``& <mask>``; comparing the whole 16-bit field with a
+    constant (``==``, ``!=``, ``in``, ``<`` ...) refuses -- or treats differently -- a peer that also announces a later version
+    (0x0003).  -> (problems, number of tests on the field examined)"""
+    probs: List[str] = []
+    n = 0
+
+    def is_field(e) -> bool:
+        return (isinstance(e, ast.Attribute) and e.attr == 'protocol_version') or (isinstance(e, ast.Name) and e.id == 'protocol_version')
+    for fi in repo.all_functions():
+        if fi.name in ('__init__', '__repr__', 'encode', 'decode', '__str__'):
+            continue
+        for x in ast.walk(fi.node):
+            if isinstance(x, ast.Compare):
+                sides = [x.left] + list(x.comparators)
+                if any(is_field(s_) for s_ in sides):
+                    n += 1
+                    probs.append('%s line %d: ``%s`` compares the whole protocol-version field: PS3.8 9.3.2 has the receiver test bit 0 only '
+                                 '(``version & 1``) -- a request announcing versions 1 and 2 (0x0003) is a version-1 request too'
+                                 % (fi.qualname, x.lineno, ast.unparse(x)[:80]))
+                elif any(isinstance(s_, ast.BinOp) and isinstance(s_.op, ast.BitAnd) and (is_field(s_.left) or is_field(s_.right)) for s_ in sides):
+                    n += 1
+            elif isinstance(x, ast.BinOp) and isinstance(x.op, ast.BitAnd) and (is_field(x.left) or is_field(x.right)):
+                n += 1
+    return sorted(set(probs)), n
